@@ -11,7 +11,7 @@ LEVEL_NOTE = 'histories are bounded (pool composition x <=2 middle operations x 
 
 POOLS_Q = [('P',), ('R',), ('T', 'P', 'R')]
 POOLS_T = [('T',), ('P',), ('R',), ('P', 'R'), ('T', 'P', 'R'), ('P', 'P')]
-MIDDLE = ['run_a', 'run_b', 'run_poison', 'restart', 'kill', 'stuck', 'stop', 'add_failing', 'add_P']
+MIDDLE = ['run_a', 'run_b', 'run_poison', 'restart', 'kill', 'stuck', 'stop', 'add_failing', 'add_P', 'run_closing']
 ENDS = ['exit', 'exc-exit', 'close', 'terminate']
 RUN_A = [1, 2, 3, 4]
 RUN_B = [10, 20, 30]
@@ -49,9 +49,11 @@ def build(h):
         kinds.append(k)
     stuck = False
     for m in h['mid']:
-        if m in ('run_a', 'run_b'):
-            inputs = RUN_A if m == 'run_a' else RUN_B
+        if m in ('run_a', 'run_b', 'run_closing'):
+            inputs = RUN_B if m == 'run_b' else RUN_A
             sc.append({'op': 'pool_run', 'pool': 'p', 'inputs': inputs, 'extra': 1})
+            if m == 'run_closing':
+                sc[-1]['close_in_callback'] = True      # a close() request made (and refused) in the middle of the run changes nothing
             if any(alive):
                 exp.append(('ret', ['ret', sorted([[x] for x in inputs], key=repr)], 'run-results-wrong'))
             else:
